@@ -11,6 +11,7 @@ package main
 import (
 	"fmt"
 	"math/rand"
+	"net"
 	"os"
 	"strconv"
 	"strings"
@@ -20,9 +21,14 @@ import (
 
 	"github.com/prometheus/client_golang/prometheus"
 	"github.com/relex/gotils/promexporter/promext"
+	"github.com/relex/gotils/channels"
+	"github.com/relex/gotils/logger"
 	"github.com/relex/slog-agent/base"
+	"github.com/relex/slog-agent/input/tcplistener"
 	"github.com/relex/slog-agent/run"
 )
+
+var reloadFull = map[string][]string{}
 
 type reloadComp struct{}
 
@@ -35,6 +41,7 @@ func (r *reloadComp) Name() string { return "reload" }
 type recWorld struct {
 	mu       sync.Mutex
 	log      []string
+	full     []string // log plus the return of every held call
 	nextSid  int
 	pauseArm bool          // the next downstream call pauses after logging
 	paused   chan struct{} // signalled when a call is paused
@@ -45,6 +52,7 @@ type recWorld struct {
 func (w *recWorld) event(s string) {
 	w.mu.Lock()
 	w.log = append(w.log, s)
+	w.full = append(w.full, s)
 	var rel chan struct{}
 	if w.pauseArm {
 		w.pauseArm = false
@@ -54,6 +62,10 @@ func (w *recWorld) event(s string) {
 	w.mu.Unlock()
 	if rel != nil {
 		<-rel
+		// the held call returns only now: recorded for the oracle (not part of the trace compared with the model)
+		w.mu.Lock()
+		w.full = append(w.full, "end-"+s)
+		w.mu.Unlock()
 	}
 }
 
@@ -176,13 +188,141 @@ func (r *reloadComp) Impl(c Case) []string {
 	defer reloadMu.Unlock()
 	out := make([]string, 0, len(c.Ops))
 	for _, o := range c.Ops {
-		if o.Name != "reload run" {
+		switch o.Name {
+		case "reload run":
+			out = append(out, runReloadScript(o.Strs))
+		case "reload tcp":
+			out = append(out, runTCPReuse(o.Strs[0]))
+		default:
 			out = append(out, "bad-op")
-			continue
 		}
-		out = append(out, runReloadScript(o.Strs))
 	}
 	return out
+}
+
+// ---- listener level: a client number (socket descriptor) must not be handed out while its sink is still open ----
+
+type trackRecv struct {
+	mu         sync.Mutex
+	open       map[base.ClientNumber]*trackSink
+	violations []string
+	created    chan *trackSink
+}
+
+type trackSink struct {
+	r       *trackRecv
+	num     base.ClientNumber
+	addr    string
+	got     chan struct{}
+	hold    chan struct{} // when set, Close waits for it
+	entered chan struct{}
+	once    sync.Once
+}
+
+func (r *trackRecv) NewSink(addr string, num base.ClientNumber) base.MessageReceiverSink {
+	s := &trackSink{r: r, num: num, addr: addr, got: make(chan struct{}, 100), entered: make(chan struct{})}
+	r.mu.Lock()
+	if prev, ok := r.open[num]; ok {
+		r.violations = append(r.violations, fmt.Sprintf("client number %d handed to %s while the sink of %s with the same number is still open", num, addr, prev.addr))
+	}
+	r.open[num] = s
+	r.mu.Unlock()
+	r.created <- s
+	return s
+}
+
+func (s *trackSink) Accept(message []byte) { s.got <- struct{}{} }
+func (s *trackSink) Flush() {
+	s.r.mu.Lock()
+	h := s.hold
+	s.r.mu.Unlock()
+	if h != nil {
+		time.Sleep(15 * time.Millisecond) // a congested pipeline makes the last flush slow
+	}
+}
+func (s *trackSink) Close() {
+	s.r.mu.Lock()
+	h := s.hold
+	s.r.mu.Unlock()
+	s.once.Do(func() { close(s.entered) })
+	if h != nil {
+		<-h
+	}
+	s.r.mu.Lock()
+	if s.r.open[s.num] == s {
+		delete(s.r.open, s.num)
+	}
+	s.r.mu.Unlock()
+}
+
+func runTCPReuse(mode string) (res string) {
+	defer func() {
+		if rec := recover(); rec != nil {
+			res = "panic " + panicKind(rec)
+		}
+	}()
+	recv := &trackRecv{open: map[base.ClientNumber]*trackSink{}, created: make(chan *trackSink, 100)}
+	stop := channels.NewSignalAwaitable()
+	lsnr, addr, err := tcplistener.NewTCPLineListener(logger.WithField("verif", "tcp"), "127.0.0.1:0", func([]byte) bool { return true }, recv, stop)
+	if err != nil {
+		return "listen-failed"
+	}
+	lsnr.Start()
+	a, err := net.Dial("tcp", addr)
+	if err != nil {
+		return "dial-failed"
+	}
+	fmt.Fprintf(a, "<14>1 2020-01-02T03:04:05Z h a 1 s - first record of connection A\n")
+	sa := <-recv.created
+	select {
+	case <-sa.got:
+	case <-time.After(2 * time.Second):
+	}
+	release := make(chan struct{})
+	recv.mu.Lock()
+	sa.hold = release
+	recv.mu.Unlock()
+	switch mode {
+	case "rst":
+		a.(*net.TCPConn).SetLinger(0)
+		a.Close()
+	case "halfdata":
+		fmt.Fprintf(a, "<14>1 2020-01-02T03:04:05Z h a 1 s - unterminated")
+		a.Close()
+	default:
+		a.Close()
+	}
+	select {
+	case <-sa.entered:
+	case <-time.After(300 * time.Millisecond):
+	}
+	time.Sleep(20 * time.Millisecond)
+	var others []net.Conn
+	var nums []string
+	for i := 0; i < 4; i++ {
+		c, err := net.Dial("tcp", addr)
+		if err != nil {
+			continue
+		}
+		others = append(others, c)
+		select {
+		case s := <-recv.created:
+			nums = append(nums, strconv.Itoa(int(s.num)))
+		case <-time.After(time.Second):
+		}
+	}
+	close(release)
+	for _, c := range others {
+		c.Close()
+	}
+	stop.Signal()
+	lsnr.Stopped().Wait(3 * time.Second)
+	recv.mu.Lock()
+	defer recv.mu.Unlock()
+	if len(recv.violations) > 0 {
+		return "REUSE " + strings.ReplaceAll(strings.Join(recv.violations, "|"), " ", "_")
+	}
+	return "distinct-numbers"
 }
 
 // one process-wide ReloadableOrchestrator (its SIGHUP goroutine can never be stopped); the recording world is swapped per
@@ -285,6 +425,7 @@ func runReloadScript(toks []string) string {
 	}
 	w.mu.Lock()
 	line := strings.Join(w.log, " ")
+	reloadFull[line] = append([]string{}, w.full...)
 	w.mu.Unlock()
 	// leave the orchestrator empty for the next script (these events are not part of the observation)
 	func() {
@@ -328,7 +469,7 @@ func (r *reloadComp) Derive(c Case, implOut []string) ([]Op, []string) {
 	var ops []Op
 	var impl []string
 	for _, line := range implOut {
-		if line == "not-enabled" || line == "-" || strings.Contains(line, "ERR:") {
+		if line == "not-enabled" || line == "-" || strings.Contains(line, "ERR:") || strings.HasPrefix(line, "REUSE") || line == "distinct-numbers" || strings.HasSuffix(line, "-failed") {
 			continue
 		}
 		ops = append(ops, Op{Name: "reload trace", Strs: strings.Fields(line)})
@@ -339,15 +480,38 @@ func (r *reloadComp) Derive(c Case, implOut []string) ([]Op, []string) {
 
 func (r *reloadComp) Oracle(c Case, impl []string) string {
 	for _, line := range impl {
+		if strings.HasPrefix(line, "REUSE ") {
+			return "[key=reload-number-reuse] " + line[6:]
+		}
+		if line == "distinct-numbers" {
+			continue
+		}
 		if i := strings.Index(line, "ERR:"); i >= 0 {
 			return "[key=reload-crash] an operation failed: " + line[i:]
 		}
 		sinks := map[string]string{} // sid -> gen
 		closed := map[string]bool{}
 		shut := map[string]bool{}
-		for _, e := range strings.Fields(line) {
+		evs := strings.Fields(line)
+		if i := strings.Index(line, " ERR:"); i >= 0 {
+			evs = strings.Fields(line[:i])
+		}
+		if full, ok := reloadFull[line]; ok {
+			evs = full
+		}
+		for _, e := range evs {
 			f := strings.Split(e, ":")
 			switch f[0] {
+			case "end-cl", "end-ac", "end-tk":
+				// a call on a sink that was still running when its downstream was shut down flushed into dead pipelines
+				if shut[sinks[f[1]]] {
+					return fmt.Sprintf("[key=reload-dead-delivery] %s on sink %s was still in progress when downstream %s was shut down", f[0][4:], f[1], sinks[f[1]])
+				}
+			case "st":
+				g, _ := strconv.Atoi(f[1])
+				if g > 0 && !shut[strconv.Itoa(g-1)] {
+					return fmt.Sprintf("[key=reload-early-start] downstream %d started before downstream %d was shut down: what the old pipelines save is not taken over", g, g-1)
+				}
 			case "ns":
 				if shut[f[2]] {
 					return fmt.Sprintf("[key=reload-dead-sink] sink %s created on downstream %s after its shutdown", f[1], f[2])
@@ -379,6 +543,9 @@ func (r *reloadComp) Oracle(c Case, impl []string) string {
 }
 
 func (r *reloadComp) Class(c Case, impl []string) string {
+	if c.Ops[0].Name == "reload tcp" {
+		return "listener-" + c.Ops[0].Strs[0]
+	}
 	toks := c.Ops[0].Strs
 	var ov, rel, fail bool
 	for _, t := range toks {
@@ -417,6 +584,9 @@ func (r *reloadComp) Generate(rng *rand.Rand, n int, emit func(Case)) {
 	mk("o:5", "ov", "t:5", "|", "R", "a:5:1")
 	mk("o:5", "F", "a:5:1", "ov", "F", "|", "a:5:2", "R", "a:5:3")
 	mk("ov", "o:5", "|", "R", "a:5:1", "x:5", "ov", "o:5", "|", "R", "a:5:2")
+	for _, mode := range []string{"fin", "rst", "halfdata", "rst", "fin"} {
+		emit(Case{Ops: []Op{{Name: "reload tcp", Strs: []string{mode}, Ints: []int64{int64(rng.Intn(1000000))}}}, Tag: "listener"})
+	}
 	for i := 0; i < n; i++ {
 		var toks []string
 		open := map[int]bool{}
